@@ -283,6 +283,7 @@ type respSpec struct {
 	SplitCRLF   bool       `json:"split_crlf"`   // write chunk framing so that CRLF pairs straddle writes
 	CloseAfter  bool       `json:"close_after"`  // origin closes its connection after this response
 	HeadTrailer bool       `json:"head_trailer"` // HEAD reply declaring chunked coding + Trailer
+	Early       bool       `json:"early"`        // the origin answers as soon as it has the request head; the client uploads the second half of its body only after it has the response
 }
 
 func (r *respSpec) headerOnly(method string) bool {
